@@ -19,7 +19,7 @@ RULE = ("(a) single operations: every value-returning operator x operand-type co
         "visited >= 2 nodes; distinct by (program digest).")
 
 VALUE_OPS = (refsem.BINARY + ["neg", "abs", "invert", "check_zero", "check_nonzero", "check_positive", "check_positive_n", "ite",
-                              "if_else", "to_bits", "to_bits_n", "toF", "ensurefxp", "pack_int"])
+                              "if_else", "to_bits", "to_bits_n", "toF", "ensurefxp", "pack_int", "frombits_tobits", "frombits_shift", "unpack_pack"])
 # families with a listed known finding: excluded from compositions by construction
 COMPOSE_OPS = [n for n in ir.OPS if n not in ("val", "ggh", "permute", "poseidon", "poseidon1")]
 
